@@ -421,7 +421,9 @@ def pipeline_configs(seed: int, label: str, n: int, mode: str = "mixed"):
     rnd.shuffle(singles)
     for i in range(n):
         c = rnd.random()
-        if i < 1 or c < 0.2:
+        if i == 1:
+            cfgs.append((singles[1],) * 6)  # one pass listed six times: a pass must be idempotent enough to survive it
+        elif i < 1 or c < 0.2:
             cfgs.append((singles[i % k],))
         elif c < 0.4:
             cfgs.append(tuple(sorted(rnd.sample(range(k), rnd.randint(2, k)))))  # subset, default order
